@@ -151,6 +151,7 @@ fn handle_put<R: Read, W: Write>(
     let tmp = tmp_of(&dst);
     // Stream exactly `len` bytes to the temp file + hash them (never buffer whole).
     let mut hasher = blake3::Hasher::new();
+    let mut got: u64 = 0;
     {
         let mut tf = std::fs::File::create(&tmp)?;
         let mut limited = r.take(len);
@@ -160,12 +161,19 @@ fn handle_put<R: Read, W: Write>(
             if n == 0 {
                 break;
             }
+            got += n as u64;
             hasher.update(&buf[..n]);
             tf.write_all(&buf[..n])?;
         }
         tf.sync_all()?;
     }
-    // Integrity: the streamed content must match the hash the client claimed.
+    // Integrity: the streamed content must have the length AND the hash the client
+    // claimed. The input can end early; what arrived may well hash to `hash`, but a
+    // body shorter than its declared length is not the write that was announced.
+    if got != len {
+        let _ = std::fs::remove_file(&tmp);
+        return write_frame(w, &Response::Error("content shorter than declared".into()));
+    }
     if *hasher.finalize().as_bytes() != hash {
         let _ = std::fs::remove_file(&tmp);
         return write_frame(w, &Response::Error("content hash mismatch".into()));
